@@ -77,7 +77,9 @@ def digitsVal (s : Str) : Nat := s.foldl (fun acc c => acc * 10 + (c.toNat - '0'
 
 /-- the alphabet the model speaks about -/
 def inDomainC (c : Char) : Bool :=
-  (32 ≤ c.toNat && c.toNat < 127) || c == '\t' || c == '€' || c == '日' || c == '☃' || c == 'ツ'
+  (32 ≤ c.toNat && c.toNat < 127) || c == '\t' || c == '€' || c == '日' || c == '☃' || c == 'ツ' ||
+  -- the ASCII control characters Python counts as white space (CR, VT, FF, FS, GS, RS, US): `isSpace` knows them
+  c == '\r' || c.toNat == 11 || c.toNat == 12 || (28 ≤ c.toNat && c.toNat ≤ 31)
 
 def inDomain (s : Str) : Bool := s.all inDomainC
 
